@@ -175,6 +175,10 @@ MEscapes   == \A k \in Members : IsNet(res[k]) => (EscapesUpper(res[k].url) \/ G
 MIdempotent == \A k \in Members : IsNet(res[k]) =>
                  \/ (res2[k].oc = "value" /\ res2[k].url = res[k].url)
                  \/ GapIdnaFirst(k) \/ GapUserPct(k) \/ GapUserEnc(k)
+\* ... and when the normalised (ASCII) URL is parsed again without knowing the document encoding
+MIdempotentAnyEnc == \A k \in Members : IsNet(res[k]) =>
+                 \/ (LET r3 == SecondPass(res[k], "utf-8") IN r3.oc = "value" /\ r3.url = res[k].url)
+                 \/ GapIdnaFirst(k) \/ GapUserPct(k) \/ GapUserEnc(k)
 MRoundTrip == \A k \in Members : IsNet(res[k]) =>
                  \/ /\ IsNet(res2[k])
                     /\ res2[k].scheme = res[k].scheme /\ res2[k].hostname = res[k].hostname /\ res2[k].port = res[k].port
